@@ -12,11 +12,14 @@
 -/
 import TypedpyModel.Drive.Wire
 import TypedpyModel.Spec.ConvertSpec
+import TypedpyModel.Sem.ConvertDeser
+import TypedpyModel.Drive.ConvertHeap
 namespace Typedpy.Drive.Convert
 open Lean (Json)
 open Typedpy.Convert hiding Json
 
 abbrev J := Typedpy.Convert.Json
+abbrev CR := Typedpy.Convert.R
 
 partial def docOfJson (j : Json) : Except String J :=
   match j with
@@ -26,6 +29,10 @@ partial def docOfJson (j : Json) : Except String J :=
   | .str s => pure (.str s)
   | .arr a => do pure (.list (← a.toList.mapM docOfJson))
   | .obj _ => do
+    if let .ok f := j.getObjVal? "f" then
+      let p ← f.getArr?
+      if p.size != 2 then throw "float ratio"
+      return .float (← p[0]!.getInt?) (← p[1]!.getNat?)
     let kvs ← (← (← j.getObjVal? "o").getArr?).toList.mapM fun kv => do
       let p ← kv.getArr?
       if p.size != 2 then throw "object entry"
@@ -37,21 +44,39 @@ partial def docToJson : J → Json
   | .bool b => .bool b
   | .int i => Json.num (Lean.JsonNumber.fromInt i)
   | .str s => .str s
+  | .float n d => Json.mkObj [("f", Json.arr #[Json.num (Lean.JsonNumber.fromInt n), Json.num (Lean.JsonNumber.fromNat d)])]
   | .list xs => Json.arr (xs.map docToJson).toArray
   | .obj kvs => Json.mkObj [("o", Json.arr (kvs.map fun (k, v) => Json.arr #[.str k, docToJson v]).toArray)]
 
-def fnOfName : String → Except String FnName
-  | "ident" => pure .ident
-  | "addOne" => pure .addOne
-  | "upper" => pure .upper
-  | "wrap" => pure .wrap
-  | "concat" => pure .concat
-  | "pair" => pure .pair
-  | s => throw s!"unknown function {s}"
+def errOfName : String → Typedpy.Convert.Err
+  | "TypeError" => .typeErr
+  | "AttributeError" => .attrErr
+  | s => .other s
+
+/-- decode an outcome `{"ok": value} | {"err": class name}` (every exception class is representable) -/
+def outcomeOfJson (j : Json) : Except String (CR J) := do
+  if let .ok x := j.getObjVal? "ok" then return .ok (← docOfJson x)
+  pure (.error (errOfName (← (← j.getObjVal? "err").getStr?)))
+
+/-- a user function given by the table of calls observed on the real code (`rows` = (arguments, outcome));
+    arguments are compared like Python `==` on JSON documents (key order ignored).  A call the table does not
+    have answers `oracle-miss`, which the harness reports as a disagreement. -/
+def tableFn (rows : List (List J × CR J)) : UserFn := fun args =>
+  match rows.find? (fun r => r.1.length == args.length && (r.1.zip args).all fun p => pyEq p.1 p.2) with
+  | some r => r.2
+  | none => .error (.other "oracle-miss")
+
+def fnTableOfJson (fns : Json) (id : String) : Except String UserFn := do
+  let rows ← (← (← fns.getObjVal? id).getArr?).toList.mapM fun row => do
+    let p ← row.getArr?
+    if p.size != 2 then throw "fn table row"
+    let args ← (← p[0]!.getArr?).toList.mapM docOfJson
+    pure (args, (← outcomeOfJson p[1]!))
+  pure (tableFn rows)
 
 def mapperSuffix : String := "._mapper"
 
-partial def mappingOfJson (j : Json) : Except String Mapping := do
+partial def mappingOfJson (fns : Json) (j : Json) : Except String Mapping := do
   (← j.getArr?).toList.mapM fun kv => do
     let p ← kv.getArr?
     if p.size != 2 then throw "mapping entry"
@@ -64,26 +89,27 @@ partial def mappingOfJson (j : Json) : Except String Mapping := do
       let args ← match Typedpy.Wire.optField e "args" with
         | none => pure []
         | some a => (← a.getArr?).toList.mapM (·.getStr?)
-      return (k, Entry.fn (← fnOfName (← x.getStr?)) args)
+      return (k, Entry.fn (← fnTableOfJson fns (← x.getStr?)) args)
     if let .ok x := e.getObjVal? "sub" then
       if !k.endsWith mapperSuffix then throw s!"sub entry key without ._mapper: {k}"
-      return ((k.dropEnd mapperSuffix.length).toString, Entry.sub (← mappingOfJson x))
+      return ((k.dropEnd mapperSuffix.length).toString, Entry.sub (← mappingOfJson fns x))
     throw s!"mapping entry {e.compress}"
 
-def errName : Err → String
+def errName : Typedpy.Convert.Err → String
   | .typeErr => "TypeError"
   | .attrErr => "AttributeError"
+  | .other n => n
 
-def resToJson : R J → Json
+def resToJson : CR J → Json
   | .ok v => Json.mkObj [("ok", docToJson v)]
   | .error e => Json.mkObj [("err", .str (errName e))]
 
 /-- decode a result of the real code; `none` when it raised a class the model does not have -/
-def resOfJson (j : Json) : Except String (Option (R J)) := do
+def resOfJson (j : Json) : Except String (Option (CR J)) := do
   if let .ok x := j.getObjVal? "ok" then return some (.ok (← docOfJson x))
   match (← j.getObjVal? "err").getStr? with
-  | .ok "TypeError" => pure (some (.error .typeErr))
-  | .ok "AttributeError" => pure (some (.error .attrErr))
+  | .ok "NotJson" => pure none
+  | .ok n => pure (some (.error (errOfName n)))
   | _ => pure none
 
 def optInt (o : Option Int) : Json :=
@@ -94,7 +120,8 @@ def optBool (o : Option Bool) : Json :=
 
 def run (j : Json) : Except String Json := do
   let doc ← docOfJson (← j.getObjVal? "doc")
-  let ms ← (← (← j.getObjVal? "ms").getArr?).toList.mapM mappingOfJson
+  let fns := match j.getObjVal? "fns" with | .ok x => x | _ => Json.mkObj []
+  let ms ← (← (← j.getObjVal? "ms").getArr?).toList.mapM (mappingOfJson fns)
   let splits ← (← (← j.getObjVal? "splits").getArr?).toList.mapM (·.getNat?)
   let hasAttr := match j.getObjVal? "hasAttr" with | .ok (.bool b) => b | _ => true
   let full := convertDict doc ms
@@ -106,14 +133,56 @@ def run (j : Json) : Except String Json := do
   let msOpt := if hasAttr then some ms else none
   let deserIn := deserVersioned id msOpt doc
   -- undeclared keys kept by the Versioned deserialization (Sem `deserExtras`)
-  let fields ← match Typedpy.Wire.optField j "fields" with
+  let fields : List String ← match Typedpy.Wire.optField j "fields" with
     | none => pure []
     | some a => (← a.getArr?).toList.mapM (·.getStr?)
   let keep : Option Bool := match j.getObjVal? "keep" with | .ok (.bool b) => some b | _ => none
-  let addl := match j.getObjVal? "addl" with | .ok (.bool b) => b | _ => true
-  let extras : R J := match deserExtras fields keep addl msOpt doc with
+  let addl : Bool := match j.getObjVal? "addl" with | .ok (.bool b) => b | _ => true
+  let extras : CR J := match Typedpy.Convert.deserExtras fields keep addl msOpt doc with
     | .ok kvs => .ok (.obj kvs)
     | .error e => .error e
+  -- the whole path of Deserializer(V).deserialize (Sem/ConvertDeser.lean), and the latest non-Versioned class on
+  -- the converted document
+  let whole ← match Typedpy.Wire.optField j "cls" with
+    | none => pure []
+    | some cj => do
+      let O ← Typedpy.Wire.oraclesOfJson j
+      let cls ← Typedpy.Wire.declOfJson cj
+      let opts : Typedpy.DeserOpts := { keepUndefined := adjustedKeep keep addl, ignoreInvalidAddl := true }
+      let trusted := match j.getObjVal? "trusted" with | .ok (.bool b) => b | _ => false
+      let w := match (if trusted then Typedpy.ConvertDeser.deserializeVersionedTrusted O opts cls msOpt doc
+                      else Typedpy.ConvertDeser.deserializeVersioned O opts cls msOpt doc) with
+        | .error e => Json.mkObj [("err", .str (errName e)), ("stage", .str "prologue")]
+        | .ok r => Typedpy.Wire.resToJson r
+      let plain ← match Typedpy.Wire.optField j "plainCls", full with
+        | some pj, .ok d' => do
+          let pc ← Typedpy.Wire.declOfJson pj
+          pure [("deserPlainModel", Typedpy.Wire.resToJson
+            (if trusted then Typedpy.deserializeTrusted Typedpy.noMappers O opts pc (Typedpy.ConvertDeser.toPy d')
+             else Typedpy.ConvertDeser.deserializePlain O opts pc d'))]
+        | _, _ => pure []
+      pure ([("deserWhole", w)] ++ plain)
+  -- the heap-level model (Sem/AliasC17.lean) with the copy sites of the source under test, against the value-level model
+  let fnScalars : List J ← match fns with
+    | .obj kvs => kvs.toList.foldlM (fun (acc : List J) (p : String × Json) => do
+        let rows ← p.2.getArr?
+        let rs ← rows.toList.mapM fun row => do
+          let q ← row.getArr?
+          match (← outcomeOfJson q[1]!) with
+          | .ok r => pure (Typedpy.Drive.ConvertHeap.scalarsOf r)
+          | .error _ => pure []
+        pure (acc ++ rs.flatten)) []
+    | _ => pure []
+  let heap : List (String × Json) := match Typedpy.Drive.ConvertHeap.run Typedpy.AliasC17.Gen.sites doc ms fnScalars with
+    | none => []
+    | some r =>
+      let agrees := match full, r.result with
+        | .ok d, some d' => pyEq d d'
+        | .error _, none => true
+        | _, _ => false
+      [("heap", Json.mkObj [("raised", .bool r.raised), ("agrees", .bool agrees), ("inputIntact", .bool r.inputIntact),
+          ("shared", Json.arr (r.shared.map fun path => Lean.Json.str (".".intercalate path)).toArray),
+          ("result", match r.result with | some d => docToJson d | none => .null)])]
   let kw ← match Typedpy.Wire.optField j "kw" with
     | none => pure []
     | some x => do match (← docOfJson x) with | .obj kvs => pure kvs | _ => throw "kw"
@@ -134,10 +203,10 @@ def run (j : Json) : Except String Json := do
   let base := [
     ("modelSteps", stepCheck modelState),
     ("full", resToJson full), ("stages", Json.arr stages.toArray), ("again", resToJson again),
-    ("wf", .bool (wfHistory ms)), ("inDomain", .bool (inDomain ms doc)),
+    ("wf", .bool (wfHistory ms)), ("wfMappings", .bool (ms.all wfMapping)), ("inDomain", .bool (inDomain ms doc)),
     ("docVersion", optInt (docVersion doc)), ("effVersion", optInt (effectiveVersion doc)),
     ("hasVersionKey", .bool (hasVersionKey doc)),
-    ("deserIn", resToJson deserIn), ("deserExtras", resToJson extras), ("initVersion", optInt initV), ("upgradeAgrees", optBool upg)]
+    ("deserIn", resToJson deserIn), ("deserExtras", resToJson extras), ("initVersion", optInt initV), ("upgradeAgrees", optBool upg)] ++ whole ++ heap
   -- laws evaluated on what the real code returned (documents arrive with sorted keys)
   let laws ← match Typedpy.Wire.optField j "impl" with
     | none => pure []
